@@ -831,9 +831,15 @@ pub fn run_record(s: &mut Src, ctx: &mut Ctx) -> Verdict {
         return Verdict::Pass;
     }
     apply_exclusions(&mut case, Kind::Record, ctx);
-    ctx.describe(|| format!("TimeWindow::record sliding, {}", show(&case, Kind::Record)));
+    // one case in three: the duration carries a sub-millisecond rest r. Timestamps are whole milliseconds, so "older
+    // than D + r" (0 < r < 1 ms) is "older than D" under every reading: the rest must change nothing
+    let rest = sub_ms_rest(&case);
+    ctx.describe(|| format!("TimeWindow::record sliding, {}{}", show(&case, Kind::Record), if rest > 0 { format!(" (duration + {} us)", rest) } else { String::new() }));
+    if rest > 0 {
+        ctx.label("sub-millisecond-rest-on-duration");
+    }
     let d = case.d;
-    let mut win = TimeWindow::new(WindowType::Sliding, Duration::from_millis(d), 0, case.cap);
+    let mut win = TimeWindow::new(WindowType::Sliding, Duration::from_millis(d) + Duration::from_micros(rest), 0, case.cap);
     let mut prev: Vec<usize> = Vec::new();
     let (mut ooo, mut bkept, mut bevicted, mut capx, mut late, mut evicted) = (false, false, false, false, false, false);
     let mut max_t = 0u64;
